@@ -6,7 +6,8 @@ own result, log in `finally` (the return of the public call is the linearization
 library) and never touch the arguments.  Nothing in /repo is modified.
 
 Recorded: Step.apply of every step class (-> "Apply" and "StepMap" events), Node.replace, Node.slice, and the
-outermost StepMap.map / map_result and Mapping.map / map_result of every call chain (-> "Mapping" events).
+outermost StepMap.map / map_result and Mapping.map / map_result of every call chain (-> "Mapping" events), and the
+inputs of every outermost replace-family / mark operation of a Transform ("TrCall": re-executed by C11 / C13).
 """
 from __future__ import annotations
 
@@ -20,6 +21,8 @@ _schemas = {}
 _depth = {"apply": 0}
 _counts = {}
 _maps = []            # schema-independent events: StepMap / Mapping queries
+_calls = []           # (schema id, inputs of an outermost Transform operation)
+_specs = {}
 
 
 def _sid(schema):
@@ -27,7 +30,10 @@ def _sid(schema):
     key = id(schema)
     if key not in _schemas:
         try:
-            _schemas[key] = schemas.export(schemas._strip(schema.spec), f"suite{len(_schemas)}")
+            stripped = schemas._strip(schema.spec)
+            json.dumps(stripped)
+            _schemas[key] = schemas.export(stripped, f"suite{len(_schemas)}")
+            _specs[key] = stripped
         except Exception:  # noqa: BLE001 - a schema spec the exporter cannot read: skip its events
             _schemas[key] = None
     return key if _schemas[key] is not None else None
@@ -131,6 +137,56 @@ def _install():
     Node.replace = replace
     Node.slice = slice_
 
+    # ---- Transform operations: the inputs of the outermost call (document before, operation, arguments); the
+    # harness re-executes them on a fresh Transform (the library is deterministic) and has TLC judge the outcome
+    from prosemirror.model import Fragment, Mark, MarkType, Slice
+    from prosemirror.transform import Transform
+
+    def wrap_op(name, describe):
+        orig = getattr(Transform, name)
+
+        @functools.wraps(orig)
+        def op(self, *args, **kw):
+            _depth["op"] = _depth.get("op", 0) + 1
+            rec = None
+            try:
+                if _depth["op"] == 1 and not kw and len(_calls) < 4000:
+                    try:
+                        sid = _sid(self.doc.type.schema)
+                        if sid is not None and self.doc.type == self.doc.type.schema.top_node_type:
+                            d = describe(*args)
+                            if d is not None:
+                                rec = dict(d, ev="TrCall", op=name, doc=proj.proj(self.doc), ra=proj.pattrs(self.doc.attrs))
+                                _calls.append((sid, rec))
+                    except Exception:  # noqa: BLE001
+                        pass
+                return orig(self, *args, **kw)
+            finally:
+                _depth["op"] -= 1
+        setattr(Transform, name, op)
+
+    def sl_(x):
+        return proj.proj_slice(x if x is not None else Slice.empty)
+
+    def node_(x):
+        if isinstance(x, Fragment):
+            return proj.proj_slice(Slice(x, 0, 0))
+        if isinstance(x, (list, tuple)):
+            return proj.proj_slice(Slice(Fragment.from_(list(x)), 0, 0))
+        return proj.proj_slice(Slice(Fragment.from_(x), 0, 0))
+
+    wrap_op("replace", lambda f, t=None, sl=None: {"from": f, "to": f if t is None else t, "slice": sl_(sl)})
+    wrap_op("replace_range", lambda f, t, sl: {"from": f, "to": t, "slice": sl_(sl)})
+    wrap_op("replace_with", lambda f, t, n: {"from": f, "to": t, "slice": node_(n)})
+    wrap_op("replace_range_with", lambda f, t, n: {"from": f, "to": t, "slice": node_(n)})
+    wrap_op("insert", lambda pos, n: {"from": pos, "to": pos, "slice": node_(n)})
+    wrap_op("delete", lambda f, t: {"from": f, "to": t, "slice": sl_(None)})
+    wrap_op("delete_range", lambda f, t: {"from": f, "to": t, "slice": sl_(None)})
+    wrap_op("add_mark", lambda f, t, m: {"from": f, "to": t, "mark": proj.pmark(m)} if isinstance(m, Mark) else None)
+    wrap_op("remove_mark", lambda f, t, m=None: {"from": f, "to": t,
+                                                  "mark": proj.pmark(m) if isinstance(m, Mark) else None,
+                                                  "mtype": m.name if isinstance(m, MarkType) else None})
+
     # ---- position maps: the outermost StepMap / Mapping query of every call chain
     from prosemirror.transform import Mapping, StepMap
 
@@ -194,4 +250,6 @@ def pytest_sessionfinish(session, exitstatus):
             by.setdefault(sid, []).append(ev)
         with open(OUT, "w") as f:
             json.dump({"schemas": {str(k): v for k, v in _schemas.items() if v is not None},
-                       "events": {str(k): v for k, v in by.items()}, "maps": _maps, "exitstatus": int(exitstatus)}, f)
+                       "events": {str(k): v for k, v in by.items()}, "maps": _maps,
+                       "specs": {str(k): v for k, v in _specs.items() if _schemas.get(k) is not None},
+                       "calls": [[str(sid), rec] for sid, rec in _calls], "exitstatus": int(exitstatus)}, f)
